@@ -124,6 +124,16 @@ def build_extract():
         stamp = os.path.join(EXTRACT, "stamp")
         if os.path.exists(stamp) and open(stamp).read() == h and os.path.exists(os.path.join(EXTRACT, "model")):
             return True, "cached"
+        # the compiled files Extract.v imports must be those of the current sources (a check builds only the .vo of
+        # its own property file, which need not depend on all of them)
+        ext_src = open(os.path.join(COQ, "Extract.v")).read()
+        mods = []
+        for m in re.finditer(r"From TV(?:\.gen)? Require Import ([^.]*)\.", ext_src):
+            mods += m.group(1).split()
+        targets = [(("gen/" + x) if os.path.exists(os.path.join(COQ, "gen", x + ".v")) else x) + ".vo" for x in mods]
+        okm, outm = coq_make(targets)
+        if not okm:
+            return False, outm[-3000:]
         rc, out = sh(["coqc", "-Q", COQ, "TV", "-o", os.path.join(EXTRACT, "Extract.vo"),
                       os.path.join(COQ, "Extract.v")], cwd=EXTRACT, timeout=900)
         if rc != 0:
